@@ -71,6 +71,7 @@ func testPrograms() []luaProgram {
 		{"match-in-nested", "packet A { u8 a, }\npacket B { string s, }\npacket Body { u16 kind, match kind as payload { 1 : A, 2 : B, }, }\nroot packet R { Body b, u32 checksum, }\n"},
 		{"match-alternative-with-members", "packet Leaf { u8 v, }\npacket A { Leaf l, repeat Leaf ls, inner { u16 w, }, }\npacket B { u8 b, }\nroot packet R { u16 kind, match kind as body { 1 : A, 2 : B, }, u8 t, }\n"},
 		{"inline-then-object", "packet Trailer { u8 t, }\npacket Price { u32 p, }\nroot packet R { repeat Leg { u32 qty, }, Trailer trailer, Side { u8 flag, Price px, }, }\n"},
+		{"packet-names-not-upper-camel", "packet order_msg { u8 a, }\npacket newOrder { order_msg m, u16 q, }\nroot packet frame { newOrder o, u8 t, }\n"},
 		{"options", "options { LittleEndian = true; ArrayPrefixLenType = u32; StringPrefixLenType = u8; GoPackage = \"pkt\"; GoModule = \"example.com/pkt\"; }\npacket Item { u8 b, }\nroot packet R { repeat Item items, string s, }\n"},
 	}
 	return ps
@@ -81,7 +82,8 @@ func testFileObligations() []emitObl {
 	props := []string{"C17"}
 	var reqs []cellReq
 	for _, p := range testPrograms() {
-		reqs = append(reqs, cellReq{ID: "go/" + p.Name, Lang: "go", Dir: "testfiles", DSL: p.DSL}, cellReq{ID: "python/" + p.Name, Lang: "python", Dir: "testfiles", DSL: p.DSL})
+		reqs = append(reqs, cellReq{ID: "go/" + p.Name, Lang: "go", Dir: "testfiles", DSL: p.DSL}, cellReq{ID: "python/" + p.Name, Lang: "python", Dir: "testfiles", DSL: p.DSL},
+			cellReq{ID: "java/" + p.Name, Lang: "java", Dir: "testfiles", DSL: p.DSL})
 	}
 	res, err := runCells(reqs)
 	if err != nil {
@@ -92,8 +94,11 @@ func testFileObligations() []emitObl {
 	var out []emitObl
 	_, pyErr := exec.LookPath("python3")
 	for _, p := range testPrograms() {
-		for _, lang := range []string{"go", "python"} {
+		for _, lang := range []string{"go", "python", "java"} {
 			name := "BOUNDED:C17:testfiles:" + lang + ":" + p.Name + ":syntax"
+			if lang == "java" {
+				name = "BOUNDED:C17:testfiles:java:" + p.Name + ":file-name"
+			}
 			if lang == "python" && pyErr != nil {
 				// no interpreter to parse with: the case is not run (and says so) rather than reported as a violation
 				out = append(out, emitObl{Name: name, Props: props, OK: true, Detail: "NOT RUN: python3 is not on PATH"})
@@ -110,7 +115,16 @@ func testFileObligations() []emitObl {
 				k := strings.Index(part, "\n")
 				fname, src := part[:k], part[k+1:]
 				nfiles++
-				if lang == "go" {
+				if lang == "java" {
+					// javac: a public top-level class must be declared in a file named after it
+					if m := javaPublicClassRe.FindStringSubmatch(src); m != nil {
+						if base := strings.TrimSuffix(filepath.Base(fname), ".java"); base != m[1] {
+							problems = append(problems, fmt.Sprintf("%s declares `public class %s`: javac requires the file to be named %s.java", fname, m[1], m[1]))
+						}
+					} else {
+						problems = append(problems, fname+": no public class declared")
+					}
+				} else if lang == "go" {
 					f, err := parser.ParseFile(token.NewFileSet(), fname, src, 0)
 					if err != nil {
 						problems = append(problems, fname+": "+err.Error())
@@ -144,7 +158,7 @@ func testFileObligations() []emitObl {
 					}
 				}
 			}
-			o := emitObl{Name: name, Props: props, OK: len(problems) == 0, Detail: fmt.Sprintf("%d emitted %s test file(s) parse", nfiles, lang)}
+			o := emitObl{Name: name, Props: props, OK: len(problems) == 0, Detail: fmt.Sprintf("%d emitted %s test file(s) checked", nfiles, lang)}
 			if len(problems) > 0 {
 				o.Detail = "emitted test file is not a syntactically valid program: " + truncate(strings.Join(problems, " | "), 600) + "\ninput:\n" + p.DSL
 				o.Replay = map[string]interface{}{"reproduced": true, "input": p.DSL, "entry": lang + " generator Generate on the model ParseFile builds (real code, go test -overlay); test files parsed with go/parser / python3 ast",
@@ -158,6 +172,8 @@ func testFileObligations() []emitObl {
 
 // testRepeatObligations: the sample of a repeated member must be a collection, so the text the emitter
 // returns for the repeated cell cannot be the text it returns for the same member unrepeated.
+var javaPublicClassRe = regexp.MustCompile(`(?m)^public class (\w+)`)
+
 var opaqueIDRe = regexp.MustCompile(`(<ret\.[^>#]*)#[0-9]+`)
 
 func testRepeatObligations(runs []emitRun) []emitObl {
